@@ -190,8 +190,11 @@ def explore(net, harness, *, extra_vars=(), extra_constraints=(), cube=(), timeb
     t0 = time.time()
 
     def _alarm(signum, frame):
-        raise Budget("class wall-time budget exceeded")
+        raise Budget("class budget exceeded")
     try:
+        # the budget is CPU time of this process (immune to a loaded machine); a wall-clock backstop of 15x the
+        # budget catches a call that blocks without burning CPU
+        signal.signal(signal.SIGPROF, _alarm)
         signal.signal(signal.SIGALRM, _alarm)
         have_alarm = True
     except ValueError:
@@ -235,11 +238,13 @@ def explore(net, harness, *, extra_vars=(), extra_constraints=(), cube=(), timeb
         for attempt in range(4):
             try:
                 if have_alarm:
-                    signal.setitimer(signal.ITIMER_REAL, class_wall_s)
+                    signal.setitimer(signal.ITIMER_PROF, class_wall_s)
+                    signal.setitimer(signal.ITIMER_REAL, 15 * class_wall_s)
                 try:
                     assertion, info = harness(ctx, rules)
                 finally:
                     if have_alarm:
+                        signal.setitimer(signal.ITIMER_PROF, 0)
                         signal.setitimer(signal.ITIMER_REAL, 0)
             except Budget:
                 # the real code did not finish on this representative within the budget (termination is the
